@@ -34,6 +34,45 @@ let parse (s : string) : item =
   let x = item () in
   if !pos <> n then failwith "trailing"; x
 
+
+(* ---- rlp.Stream, code-shaped model (coq/Rlp/StreamModel.v) ---- *)
+let serr_name (e : serr) : string =
+  match e with
+  | EEOL -> "eol" | EExpectedString -> "expstr" | EExpectedList -> "explist"
+  | ECanonInt -> "canonint" | ECanonSize -> "canonsize" | EElemTooLarge -> "elemlarge"
+  | EValueTooLarge -> "vallarge" | ENotInList -> "notinlist" | ENotAtEOL -> "notateol"
+  | EUintOverflow -> "uintoverflow" | EEOF -> "eof" | EUnexpectedEOF -> "uneof"
+  | EInvalidBool -> "other"
+
+let sval_render (v : sval) : string =
+  match v with
+  | RvKind (k, n) -> "k" ^ (match k with SByte -> "0" | SString -> "1" | SList -> "2") ^ ":" ^ hex_of_n n
+  | RvNum n -> "n" ^ hex_of_n n
+  | RvBytes b -> "x" ^ hex_of_bytes b
+  | RvBool b -> if b then "t" else "f"
+  | RvUnit -> "u"
+
+let sop_parse (t : string) : sop =
+  match t with
+  | "K" -> OpKind | "L" -> OpList | "E" -> OpListEnd | "B" -> OpBytes | "R" -> OpRaw | "O" -> OpBool
+  | _ when String.length t >= 2 && t.[0] = 'U' ->
+    OpUint (n_of_string (String.sub t 1 (String.length t - 1)))
+  | _ -> failwith "op"
+
+(* one answer per op: <result>/<bytes left in the reader>, joined by ';'; stops after a panic *)
+let stream_ops (s0 : stream) (ops : string list) : string =
+  let rec go s ops acc =
+    match ops with
+    | [] -> List.rev acc
+    | o :: rest ->
+      let (r, s') = st_op (sop_parse o) s in
+      let left = string_of_int (List.length s'.s_in) in
+      (match r with
+       | SOk v -> go s' rest (("ok:" ^ sval_render v ^ "/" ^ left) :: acc)
+       | SErr e -> go s' rest (("err:" ^ serr_name e ^ "/" ^ left) :: acc)
+       | SPanic -> List.rev ("panic" :: acc)) in
+  String.concat ";" (go s0 ops [])
+
 let handle (toks : string list) : string =
   match toks with
   | ["keccak"; h] -> hex_of_bytes (keccak256 (bytes_of_hex h))
@@ -61,6 +100,17 @@ let handle (toks : string list) : string =
      | None -> "driver-error unknown-type"
      | Some None -> "err"
      | Some (Some b) -> "ok " ^ hex_of_bytes b)
+  (* stream_walk <inputLimit> <reader is *bytes.Reader: 0|1> <hex> *)
+  | ["stream_walk"; lim; br; h] ->
+    (match stream_walk (bytes_of_hex h) (n_of_string lim) (br = "1") with
+     | None -> "nofuel"
+     | Some (SOk x, left) -> "ok " ^ render x ^ " left=" ^ string_of_int (List.length left)
+     | Some (SErr e, left) -> "err " ^ serr_name e ^ " left=" ^ string_of_int (List.length left)
+     | Some (SPanic, _) -> "panic")
+  (* stream_ops <inputLimit> <0|1> <hex> <op,op,...>  ops: K L E B R U<bits> O *)
+  | ["stream_ops"; lim; br; h; ops] ->
+    stream_ops (new_stream (bytes_of_hex h) (n_of_string lim) (br = "1")) (split_on ',' ops)
+  | ["stream_ops"; lim; br; h] -> ""
   | _ -> "driver-error unknown-command"
 
 let () = self_test b2n; serve handle
